@@ -33,6 +33,7 @@
 
 /// Harness replacement for /repo/src/verif_hooks (baton scheduler entry points).
 pub mod verif_hooks;
+pub mod sysio;
 
 pub mod engine;
 pub mod oracle;
